@@ -228,3 +228,83 @@ pub fn stress(dir: &str, output: &str, seed: u64, thorough: bool) -> Value {
 	let lines = out.finish();
 	json!({"events": lines, "reads": total_reads, "lookups": lookups, "tiles": ntiles})
 }
+
+// ------------------------------------------------------------------------------------------------------------------
+/// Tile-index cache protocol of VersaTilesReader under real concurrency (spec/Reader.tla, trace/Trace_Reader.tla).
+/// Hook H2 logs one event per critical section of the cache mutex (Hit / Fill with the cache's key set, taken while the
+/// lock is held); the harness logs Start / Done of every lookup into the SAME log, so one lock orders everything.
+pub fn cache_trace(output: &str, dir: &str, seed: u64, thorough: bool) -> Value {
+	use crate::indep;
+	use crate::mem::payload;
+	use versatiles_container::{verif_trace, VersaTilesReader};
+	use versatiles_core::types::{TileCoord3, TilesReaderTrait};
+	let mut out = Out::create(output);
+	let d = Path::new(dir);
+	std::fs::create_dir_all(d).unwrap();
+	// 6 blocks on level 10 (4x4 block grid), 3 tiles each, distinct payloads; one more tile on level 3
+	let blocks: [(u32, u32); 6] = [(0, 0), (1, 0), (3, 1), (2, 2), (0, 3), (3, 3)];
+	let mut tiles: Vec<(u8, u32, u32, u32)> = vec![(3, 1, 2, 1)];
+	let mut pid = 2;
+	for (bx, by) in blocks {
+		for (dx, dy) in [(0u32, 0u32), (17, 200), (255, 255)] {
+			tiles.push((10, bx * 256 + dx, by * 256 + dy, pid));
+			pid += 1;
+		}
+	}
+	let raw: Vec<indep::Tile> = tiles.iter().map(|t| (t.0, t.1, t.2, payload(t.3, 64 + t.3 as usize, true))).collect();
+	let by_bytes: std::collections::HashMap<Vec<u8>, u32> = raw.iter().zip(tiles.iter()).map(|(r, t)| (r.3.clone(), t.3)).collect();
+	let want: std::collections::HashMap<(u8, u32, u32), u32> = tiles.iter().map(|t| ((t.0, t.1, t.2), t.3)).collect();
+	let path = d.join("c13_cache.versatiles");
+	std::fs::write(&path, indep::encode_versatiles("pbf", "none", &raw, None, &indep::VtChoices { partial_blocks: true, reverse_tiles: false, share_all: false, index_first: false, shuffle_blocks: false, gap: 0 })).unwrap();
+	let rt = tokio::runtime::Builder::new_multi_thread().worker_threads(6).enable_all().build().unwrap();
+	let per_task = if thorough { 120 } else { 30 };
+	let (mut lookups, mut rounds) = (0u64, 0u64);
+	for (round, (cap, ntasks)) in [(1usize, 2usize), (2, 4), (2, 8), (3, 8), (1, 8), (100, 8)].into_iter().enumerate() {
+		std::env::set_var("VERSATILES_VERIF_INDEX_CACHE", cap.to_string());
+		let reader = std::sync::Arc::new(rt.block_on(VersaTilesReader::open_path(&path)).unwrap());
+		let _ = verif_trace::take();
+		out.emit(&json!({"ev":"Reset","cap":cap,"tasks":ntasks,"blocks":blocks.iter().map(|b| json!([10, b.0, b.1])).chain(std::iter::once(json!([3, 0, 0]))).collect::<Vec<_>>()}));
+		rt.block_on(async {
+			let mut hs = vec![];
+			for t in 0..ntasks {
+				let reader = reader.clone();
+				let tiles = tiles.clone();
+				let want = want.clone();
+				let by_bytes = by_bytes.clone();
+				let mut r = Rng::new(seed ^ 0xCAC4E ^ ((round as u64) << 16) ^ t as u64);
+				hs.push(tokio::spawn(async move {
+					for _ in 0..per_task {
+						// a stored tile, or an absent coordinate inside a stored block
+						let base = tiles[r.below(tiles.len() as u64) as usize];
+						let (z, x, y) = if r.chance(1, 4) { (base.0, base.1 ^ 1, base.2) } else { (base.0, base.1, base.2) };
+						let blk = if z == 10 { (10u8, x / 256, y / 256) } else { (3u8, 0, 0) };
+						verif_trace::emit_raw(format!("{{\"ev\":\"Start\",\"task\":{},\"block\":[{},{},{}],\"tile\":[{z},{x},{y}]}}", t + 1, blk.0, blk.1, blk.2));
+						let got: i64 = match reader.get_tile_data(&TileCoord3::new(x, y, z).unwrap()).await {
+							Ok(Some(b)) => by_bytes.get(b.as_slice()).map(|p| *p as i64).unwrap_or(-2),
+							Ok(None) => 0,
+							Err(_) => -1,
+						};
+						let w = want.get(&(z, x, y)).copied().unwrap_or(0);
+						verif_trace::emit_raw(format!("{{\"ev\":\"Done\",\"task\":{},\"block\":[{},{},{}],\"tile\":[{z},{x},{y}],\"got\":{got},\"want\":{w}}}", t + 1, blk.0, blk.1, blk.2));
+						if r.chance(1, 3) {
+							tokio::task::yield_now().await;
+						}
+					}
+				}));
+			}
+			for h in hs {
+				let _ = h.await;
+			}
+		});
+		for line in verif_trace::take() {
+			let v: Value = serde_json::from_str(&line).unwrap();
+			lookups += (v["ev"] == "Done") as u64;
+			out.emit(&v);
+		}
+		rounds += 1;
+	}
+	std::env::remove_var("VERSATILES_VERIF_INDEX_CACHE");
+	let _ = std::fs::remove_file(&path);
+	let lines = out.finish();
+	json!({"events": lines, "lookups": lookups, "rounds": rounds})
+}
